@@ -158,6 +158,14 @@ class GrammarModel:
         t = self.terminals.get(term)
         if t and t["kind"] == "str":
             return t["value"]
+        if t and t["kind"] == "re":
+            # a keyword spelled as a whole word: word(?!\w) or word\b matches exactly the strings `word` (followed by a non-word
+            # character), so its literal is `word`
+            import re as _re
+
+            m = _re.fullmatch(r"([A-Za-z_]\w*)(\(\?!\\w\)|\(\?!\[A-Za-z0-9_\]\)|\\b)", t["value"])
+            if m:
+                return m.group(1)
         return None
 
     def reachable(self, start="fbody") -> set[str]:
